@@ -43,33 +43,55 @@ theorem closeEnding_other (ks : List Nat) : ∀ (sl : List Slot) (j : Nat), (sl.
     · next he =>
       have hkj : k ≠ j := by intro hh; subst hh; rw [hj] at he; cases he
       split
-      · have hsame := getD_set_ne sl k j { sl.getD k {} with ending := false, fstate := 2, sess := none, pending := [] } hkj
+      · have hsame := getD_set_ne sl k j { sl.getD k {} with ending := false, fstate := 2, sess := none, pending := [], kq := [] } hkj
         rw [ih _ j (by rw [hsame]; exact hj), hsame]
       · have hsame := getD_set_ne sl k j { sl.getD k {} with ending := false } hkj
         rw [ih _ j (by rw [hsame]; exact hj), hsame]
     · exact ih sl j hj
 
-theorem doPass_other (cfg : Cfg) (w : World) (j : Nat)
-    (h : (w.exits.contains (j, (w.slot j).gen) || (w.slot j).ending) = false) :
-    (doPass cfg w).1.slot j = w.slot j := by
-  simp only [Bool.or_eq_false_iff] at h
-  have hn : (j, (w.slots.getD j {}).gen) ∉ w.exits := by
-    intro hh; have := List.contains_iff_mem.mpr hh; simp only [World.slot] at h; rw [h.1] at this; cases this
-  have h1 := runExits_other cfg w.exits w.slots j hn
-  show (closeEnding [4, 5, 6] (runExits cfg w.exits w.slots).1).1.getD j {} = w.slots.getD j {}
-  rw [closeEnding_other _ _ j (by rw [h1]; exact h.2), h1]
+theorem closeZombies_other (ks : List Nat) : ∀ (sl : List Slot) (j : Nat), (sl.getD j {}).zfd = 0 →
+    (closeZombies ks sl).1.getD j {} = sl.getD j {} := by
+  induction ks with
+  | nil => intro sl j _; rfl
+  | cons k ks ih =>
+    intro sl j hj
+    unfold closeZombies
+    simp only
+    split
+    · exact ih sl j hj
+    · next hz =>
+      have hkj : k ≠ j := by intro hh; subst hh; exact hz hj
+      have hsame := getD_set_ne sl k j { sl.getD k {} with zfd := 0 } hkj
+      rw [ih _ j (by rw [hsame]; exact hj), hsame]
 
-theorem finishSlot_other (w : World) (k j : Nat) (x : Slot) (so : Option St) (evs : List Ev) (h : k ≠ j) :
-    (finishSlot w k x so evs).1.slot j = w.slot j := by
+theorem doPass_other (cfg : Cfg) (w : World) (j : Nat) (h : passTouches w j = false) :
+    (doPass cfg w).1.slot j = w.slot j := by
+  simp only [passTouches, Bool.or_eq_false_iff, bne_eq_false_iff_eq] at h
+  have hz := closeZombies_other [4, 5, 6] w.slots j h.2
+  have hn : (j, ((closeZombies [4, 5, 6] w.slots).1.getD j {}).gen) ∉ w.exits := by
+    rw [hz]
+    intro hh; have := List.contains_iff_mem.mpr hh; simp only [World.slot] at h; rw [h.1.1] at this; cases this
+  have h1 := runExits_other cfg w.exits (closeZombies [4, 5, 6] w.slots).1 j hn
+  show (closeEnding [4, 5, 6] (runExits cfg w.exits (closeZombies [4, 5, 6] w.slots).1).1).1.getD j {} = w.slots.getD j {}
+  rw [closeEnding_other _ _ j (by rw [h1, hz]; exact h.1.2), h1, hz]
+
+theorem finishSlot_other (cfg : Cfg) (w : World) (k j : Nat) (x : Slot) (so : Option St) (evs : List Ev) (h : k ≠ j) :
+    (finishSlot cfg w k x so evs).1.slot j = w.slot j := by
   unfold finishSlot
   simp only
   cases kindOf k <;> exact getD_set_ne w.slots k j _ h
 
-theorem finishSlot_exits (w : World) (k : Nat) (x : Slot) (so : Option St) (evs : List Ev) :
-    ∃ n, (finishSlot w k x so evs).1.exits = w.exits ++ List.replicate n (k, x.gen) := by
+theorem finishSlot_exits (cfg : Cfg) (w : World) (k : Nat) (x : Slot) (so : Option St) (evs : List Ev) :
+    ∃ n, (finishSlot cfg w k x so evs).1.exits = w.exits ++ List.replicate n (k, x.gen) := by
   unfold finishSlot
   simp only
   cases kindOf k <;> exact ⟨_, rfl⟩
+
+theorem finishSlot_gone (cfg : Cfg) (w : World) (k : Nat) (x : Slot) (so : Option St) (evs : List Ev) :
+    (finishSlot cfg w k x so evs).1.gone = w.gone := by
+  unfold finishSlot
+  simp only
+  cases kindOf k <;> rfl
 
 theorem deliver_other (cfg : Cfg) (w : World) (k j : Nat) (bs : Str) (h : k ≠ j) :
     (deliver cfg w k bs).1.slot j = w.slot j := by
@@ -77,7 +99,7 @@ theorem deliver_other (cfg : Cfg) (w : World) (k j : Nat) (bs : Str) (h : k ≠ 
   simp only
   cases (w.slot k).sess with
   | none => rfl
-  | some s => exact finishSlot_other w k j _ _ _ h
+  | some s => exact finishSlot_other cfg w k j _ _ _ h
 
 theorem deliver_exits (cfg : Cfg) (w : World) (k : Nat) (bs : Str) :
     ∃ n, (deliver cfg w k bs).1.exits = w.exits ++ List.replicate n (k, (w.slot k).gen) := by
@@ -85,20 +107,119 @@ theorem deliver_exits (cfg : Cfg) (w : World) (k : Nat) (bs : Str) :
   simp only
   cases (w.slot k).sess with
   | none => exact ⟨0, by simp⟩
-  | some s => exact finishSlot_exits w k _ _ _
+  | some s => exact finishSlot_exits cfg w k _ _ _
 
-theorem dropGone_other (ks : List Nat) : ∀ (w : World) (j : Nat), ks.contains j = false →
-    (dropGone ks w).slot j = w.slot j ∧ (dropGone ks w).exits = w.exits := by
+theorem deliver_gone (cfg : Cfg) (w : World) (k : Nat) (bs : Str) : (deliver cfg w k bs).1.gone = w.gone := by
+  unfold deliver
+  simp only
+  cases (w.slot k).sess with
+  | none => rfl
+  | some s => exact finishSlot_gone cfg w k _ _ _
+
+/-- what a delivery to slot `k` leaves alone: every other slot, the set of clients that went away, and the exit tasks
+of every other slot -/
+structure Apart (w w' : World) (k : Nat) : Prop where
+  slot : ∀ j, k ≠ j → w'.slot j = w.slot j
+  gone : ∀ j, k ≠ j → w'.gone.contains j = w.gone.contains j
+  exits : ∀ j g, k ≠ j → (w'.exits.contains (j, g) = w.exits.contains (j, g))
+
+theorem Apart.refl (w : World) (k : Nat) : Apart w w k := ⟨fun _ _ => rfl, fun _ _ => rfl, fun _ _ _ => rfl⟩
+
+theorem Apart.trans {a b c : World} {k : Nat} (h1 : Apart a b k) (h2 : Apart b c k) : Apart a c k :=
+  ⟨fun j h => (h2.slot j h).trans (h1.slot j h), fun j h => (h2.gone j h).trans (h1.gone j h),
+   fun j g h => (h2.exits j g h).trans (h1.exits j g h)⟩
+
+theorem passTouches_apart {w w' : World} {k j : Nat} (h : Apart w w' k) (hkj : k ≠ j) : passTouches w' j = passTouches w j := by
+  simp only [passTouches]; rw [h.slot j hkj, h.exits j _ hkj]
+
+theorem contains_append_replicate (l : List (Nat × Nat)) (n k g j g' : Nat) (h : k ≠ j) :
+    (l ++ List.replicate n (k, g)).contains (j, g') = l.contains (j, g') := by
+  cases hc : l.contains (j, g') with
+  | true =>
+    exact List.contains_iff_mem.mpr (List.mem_append_left _ (List.contains_iff_mem.mp hc))
+  | false =>
+    rw [Bool.eq_false_iff]; intro hh
+    rcases List.mem_append.mp (List.contains_iff_mem.mp hh) with h2 | h2
+    · have := List.contains_iff_mem.mpr h2; rw [hc] at this; cases this
+    · have := (List.mem_replicate.mp h2).2; simp at this; exact h this.1.symm
+
+theorem apart_of_exits {w w' : World} {k n g : Nat} (hs : ∀ j, k ≠ j → w'.slot j = w.slot j) (hg : w'.gone = w.gone)
+    (he : w'.exits = w.exits ++ List.replicate n (k, g)) : Apart w w' k :=
+  ⟨hs, fun _ _ => by rw [hg], fun j g' h => by rw [he]; exact contains_append_replicate _ _ _ _ _ _ h⟩
+
+theorem deliver_apart (cfg : Cfg) (w : World) (k : Nat) (bs : Str) : Apart w (deliver cfg w k bs).1 k := by
+  obtain ⟨n, hn⟩ := deliver_exits cfg w k bs
+  exact apart_of_exits (fun j h => deliver_other cfg w k j bs h) (deliver_gone cfg w k bs) hn
+
+theorem recvSlot_apart (cfg : Cfg) (w : World) (k : Nat) (bs : Str) : Apart w (recvSlot cfg w k bs).1 k := by
+  unfold recvSlot
+  simp only
+  split
+  · next h6 =>
+    subst h6
+    split
+    · exact Apart.refl _ _
+    · exact deliver_apart cfg w 6 _
+  · obtain ⟨n, hn⟩ := finishSlot_exits cfg w k { w.slot k with pending := (telFeed cfg
+        (match (w.slot k).sess with | some s => s.opts | none => 0) (w.slot k).pending bs).2.2 }
+        (applyTel cfg w.nodes w.depth (w.slot k).sess (telFeed cfg
+          (match (w.slot k).sess with | some s => s.opts | none => 0) (w.slot k).pending bs).1).1
+        (applyTel cfg w.nodes w.depth (w.slot k).sess (telFeed cfg
+          (match (w.slot k).sess with | some s => s.opts | none => 0) (w.slot k).pending bs).1).2
+    exact apart_of_exits (fun j h => finishSlot_other cfg w k j _ _ _ h) (finishSlot_gone cfg w k _ _ _) hn
+
+theorem contains_filter_ne (l : List Nat) (k j : Nat) (h : k ≠ j) : (l.filter (· ≠ k)).contains j = l.contains j := by
+  rw [Bool.eq_iff_iff]
+  simp only [List.contains_iff_mem, List.mem_filter, decide_eq_true_eq]
+  exact ⟨fun hh => hh.1, fun hh => ⟨hh, fun e => h e.symm⟩⟩
+
+theorem setSlot_apart (w : World) (k : Nat) (y : Slot) : Apart w (w.setSlot k y) k :=
+  ⟨fun j h => slot_setSlot_ne w k j y h, fun _ _ => rfl, fun _ _ _ => rfl⟩
+
+theorem sockClosed_apart (w : World) (k : Nat) : Apart w (sockClosed w k) k := by
+  refine ⟨fun j h => slot_setSlot_ne w k j _ h, fun j h => ?_, fun _ _ _ => rfl⟩
+  exact contains_filter_ne w.gone k j h
+
+theorem sockEvent_apart (cfg : Cfg) (w : World) (k : Nat) (chunks : List Nat) (term : Nat) :
+    Apart w (sockEvent cfg w k chunks term).1 k := by
+  unfold sockEvent
+  simp only
+  have h1 := setSlot_apart w k { w.slot k with kq := (sockRead (w.slot k).kq (w.gone.contains k) chunks term).rest }
+  split
+  · split
+    · exact h1.trans (sockClosed_apart _ k)
+    · exact (h1.trans (recvSlot_apart cfg _ k _)).trans (sockClosed_apart _ k)
+  · split
+    · exact h1
+    · exact h1.trans (recvSlot_apart cfg _ k _)
+
+/-- the read events of a pass leave slot `j` alone (and what the rest of the pass looks at for it) when its socket has
+nothing to report -/
+theorem sockPass_other (cfg : Cfg) (ks : List Nat) : ∀ (w : World) (j : Nat), sockTouches w j = false →
+    (sockPass cfg ks w).1.slot j = w.slot j ∧
+    ∀ g, (sockPass cfg ks w).1.exits.contains (j, g) = w.exits.contains (j, g) := by
   induction ks with
-  | nil => intro w j _; exact ⟨rfl, rfl⟩
+  | nil => intro w j _; exact ⟨rfl, fun _ => rfl⟩
   | cons k ks ih =>
     intro w j hj
-    simp only [List.contains_cons, Bool.or_eq_false_iff, beq_eq_false_iff_ne] at hj
-    unfold dropGone
+    unfold sockPass
     simp only
     split
-    · have := ih (w.setSlot k { w.slot k with fstate := 2, sess := none, pending := [], ending := false }) j hj.2
-      exact ⟨this.1.trans (slot_setSlot_ne w k j _ (Ne.symm hj.1)), this.2⟩
-    · exact ih w j hj.2
+    · next hk =>
+      have hkj : k ≠ j := by
+        intro hh; subst hh
+        simp only [sockTouches, Bool.and_eq_false_iff, Bool.or_eq_false_iff] at hj
+        rcases hj with h1 | h1
+        · simp [hk.1] at h1
+        · rcases hk.2 with h2 | h2
+          · have := h1.1; simp at this; exact h2 this
+          · rw [h2] at h1; cases h1.2
+      have ha := sockEvent_apart cfg w k [] 0
+      have hj' : sockTouches (sockEvent cfg w k [] 0).1 j = false := by
+        simp only [sockTouches] at hj ⊢
+        rw [ha.slot j hkj, ha.gone j hkj]; exact hj
+      have := ih _ j hj'
+      exact ⟨this.1.trans (ha.slot j hkj), fun g => (this.2 g).trans (ha.exits j g hkj)⟩
+    · exact ih w j hj
 
 end Tbox.C13
